@@ -20,8 +20,11 @@ VALENCE = {("C", 0): 4, ("N", 0): 3, ("O", 0): 2, ("S", 0): 2, ("F", 0): 1,
 # higher valence states of multi-valent elements (hydrogens complete the SMALLEST state that fits)
 VALENCE_STATES = {("S", 0): [2, 4, 6], ("P", 0): [3, 5], ("N", 0): [3, 5]}
 VALENCE[("P", 0)] = 3
+VALENCE.update({("C", 1): 3, ("C", -1): 3, ("B", -1): 4, ("B", 0): 3})
 ORDER_SYMBOL = {1: "", 2: "=", 3: "#", 1.5: ""}
 
+# charged atoms of groups 13/14 (the charge moves the valence the other way than for N/O)
+EXOTIC_WEIGHTS = [(("C", 1), 2), (("C", -1), 2), (("B", -1), 2), (("B", 0), 2)]
 ELEMENT_WEIGHTS = [(("C", 0), 58), (("N", 0), 11), (("O", 0), 14), (("S", 0), 4),
                    (("F", 0), 3), (("Cl", 0), 3), (("Br", 0), 1), (("N", 1), 3), (("O", -1), 3)]
 BEAD_NAMES = ["P1", "P2", "C1", "C2", "N0", "Qa", "SC3", "TC5", "X", "SN4a", "TP1d", "C6", "Na", "Qd"]
@@ -115,7 +118,7 @@ class Mol:
 def gen_atomistic(rng, n_target, rich=True, hyper=(), explicit_h=False):
     """hyper: elements that may take a higher valence state, e.g. ("S", "P", "N")."""
     mol = Mol("atomistic")
-    weights = list(ELEMENT_WEIGHTS) + ([(("P", 0), 3), (("S", 0), 4)] if hyper else [])
+    weights = list(ELEMENT_WEIGHTS) + ([(("P", 0), 3), (("S", 0), 4)] if hyper else []) + (EXOTIC_WEIGHTS if "exotic" in hyper else [])
 
     def new_atom(key, arom=False):
         cap = VALENCE[key]
